@@ -39,7 +39,7 @@ m = {
         'name': 'lean4-proof+correspondence',
         'path': '/verif/lean',
         'serves_properties': [c['property_id'] for c in checks],
-        'kind_free_text': 'Lean 4 model + theorems (lake build, #print axioms audit), tied to /repo by translators regenerated on each run (tools/py2lean.py, py2flow.py, py2dom.py, py2cv.py, py2factor.py) and by a differential correspondence run of the compiled model driver against the Python implementation',
+        'kind_free_text': 'Lean 4 model + theorems (lake build, #print axioms audit), tied to /repo by sixteen translators regenerated on each run (tools/py2*.py: cdp2adp and mechanism slices, mechanism flows, domain, dataset, clique_vector, factor, graphical_model core and query/sampling paths, junction_tree, inference solvers, totals, estimator shell, factor_graph, region_graph, local_inference, public_inference; per-property selection in tools/ties.json) and by a differential correspondence run of the compiled model driver against the Python implementation',
     }],
     'checks': checks,
     'not_applicable': na,
